@@ -32,6 +32,7 @@ func register(p *propDef) { registry[p.ID] = p }
 
 var trustedBase = []string{
 	"Go type checker and go/ssa (x/tools v0.29.0) build a faithful IR of /repo's current source",
+	"sipvet's own addition to the vendored go/ssa (sipvet_inline.go) inlines a function that is absent from the pinned tree and has exactly one static call site into its caller, preserving semantics; every function so changed passes go/ssa's consistency check, otherwise the program is analysed as written",
 	"VTA call graph (seeded by CHA) over-approximates dynamic dispatch",
 	"standard-library contracts used as facts: strings.Index*/Split/HasPrefix/Fields, bufio.Reader.ReadLine buffer lifetime, io.ReadFull reads exactly len(buf) or fails, net.Conn.Write returns a non-nil error on a short write, sync.Mutex semantics",
 }
@@ -43,6 +44,7 @@ func main() {
 	tier := flag.String("tier", "quick", "quick|thorough")
 	dump := flag.String("dump", "", "debug: dump SSA of the named function")
 	replay := flag.String("replay", "", "replay file: re-evaluate the obligation it names")
+	listFuncs := flag.Bool("listfuncs", false, "print the named functions of the analysed package (to regenerate baseline_funcs.txt on the pinned tree)")
 	bce := flag.String("bce", "", "thorough/C08: file with the compiler's -d=ssa/check_bce/debug=1 listing for cross-checking the obligation inventory")
 	flag.Parse()
 
@@ -67,6 +69,14 @@ func main() {
 			failLoad(*verif, id, *tier, seed, err, time.Since(t0).Seconds())
 		}
 		os.Exit(1)
+	}
+	if *listFuncs {
+		for _, fn := range w.All {
+			if fn.Parent() == nil {
+				fmt.Println(w.fname(fn))
+			}
+		}
+		return
 	}
 	if *dump != "" {
 		for _, n := range strings.Split(*dump, ",") {
